@@ -271,10 +271,17 @@ fn one_case(i: u64, rng: &mut Rng, sink: &mut Sink) {
                         sink.line(&l, "PANIC");
                         sink.branch(&format!("emit:{}:PANIC", variant));
                         sink.branch(&format!("emit-panic:{}", culprit));
-                        sink.monitor_fail(
-                            &format!("panic:emit:{}:{}", variant, culprit),
-                            &format!("event!(ServerListening{{..}}) panicked although logging must be purely observational; span fields: [{}]; message: {}", all, msg),
-                        );
+                        // A span field of the WRONG JSON type (e.g. group_id = 7) is API misuse that no span! site of the repo
+                        // commits (Props/C20 `emit_never_panics_under_repo_spans`); the panic is then only compared with the
+                        // model.  With every known field absent or of the type the repo's sites give it, a panic is a violation.
+                        if culprit == "-" {
+                            sink.monitor_fail(
+                                &format!("panic:emit:{}:welltyped-context", variant),
+                                &format!("event!(ServerListening{{..}}) panicked although every span field it reads is absent or well typed; span fields: [{}]; message: {}", all, msg),
+                            );
+                        } else {
+                            sink.branch("emit-panic:ill-typed-span-field(api-misuse,not-a-repo-site)");
+                        }
                     }
                     Ok(()) if evs.is_empty() => {
                         sink.line(&l, "filtered");
@@ -298,7 +305,9 @@ fn one_case(i: u64, rng: &mut Rng, sink: &mut Sink) {
                         sorted.sort();
                         if sorted.windows(2).any(|w| w[0] == w[1]) { sink.branch(&format!("emit:{}:duplicate-key", variant)); }
                         any_ok = true;
-                        if let Rt::Fail(why) = &rt {
+                        // custom fields named like a field of the envelope (time/name/data/path/group_id) alias or duplicate it;
+                        // no event! site of the repo does that (Props/C20 `event_sites_custom_fields_not_reserved`): model-compared only
+                        if let (Rt::Fail(why), true) = (&rt, *variant == "plain" || *variant == "custom_foo") {
                             sink.monitor_fail(&format!("emit-not-roundtrip:{}", variant), &format!("from_str(to_string(event)) != event: {}; text: {}", why, js));
                         }
                         if !["time", "name", "data"].iter().all(|m| keys.iter().any(|k| k == m)) {
